@@ -417,7 +417,7 @@ def program_cases(draw):
 
 
 def checks(tier):
-    n1, n2 = {"quick": (2400, 800), "thorough": (100000, 30000)}.get(tier, (10, 10))
+    n1, n2 = {"quick": (2400, 800), "thorough": (24000, 8000)}.get(tier, (10, 10))
     return [
         Check("trees", fn_tree, strategy=tree_cases(), examples=n1),
         Check("edit_programs", fn_program, strategy=program_cases(), examples=n2),
